@@ -174,6 +174,9 @@ template <class T> struct Drv {
     unsigned char* itbuf[4][2];
 
     Drv(fx::Ctx& f, const Job<T>& jj, unsigned log2states = 21) : fx(f), j(jj), snap(jj.total), exp(jj.total), sim(jj.total), init(jj.total), states(log2states) {
+        // the engine's distinct-point set grows to millions of entries in these cases: size its bucket array once, so that no
+        // rehash pause (seconds on a loaded machine) can be mistaken for a hang by the 2 s watchdog
+        if (fx.seen && fx.seen->bucket_count() < FX_DISTINCT_CAP) fx.seen->reserve(FX_DISTINCT_CAP);
         fx.arena[0].paint();
         ap = fx.arena[0].place_mid(j.sizeofA, 64); ad = (T*)ap;
         memset(&g, 0, sizeof g);
